@@ -238,13 +238,22 @@ func Equal(want ref.Value, got value.Value) (bool, string) {
 // EqualTol: with tol, floats may differ by a relative 1e-12 (granted only where the property allows rounding
 // differences: the optimizer regrouped constant operands of an operator declared commutative).
 func EqualTol(want ref.Value, got value.Value, tol bool) (bool, string) {
+	ok, _, d := equalTol3(want, got, tol)
+	return ok, d
+}
+
+// equalTol3 also reports whether the reference value could not be evaluated again for the comparison (its
+// evaluation budget ran out while a lazy list was traversed a second time): then nothing was compared there.
+func equalTol3(want ref.Value, got value.Value, tol bool) (ok bool, open bool, diff string) {
 	in := &cmpCtx{Interp: ref.NewInterp(), tol: tol}
-	return equal(in, want, got, "")
+	ok, diff = equal(in, want, got, "")
+	return ok, in.open, diff
 }
 
 type cmpCtx struct {
 	*ref.Interp
-	tol bool
+	tol  bool
+	open bool
 }
 
 func equal(in *cmpCtx, want ref.Value, got value.Value, path string) (bool, string) {
@@ -285,6 +294,10 @@ func equal(in *cmpCtx, want ref.Value, got value.Value, path string) (bool, stri
 		}
 		ws, e := in.Force(w)
 		if e != nil {
+			if e.Unspec || e.Budget {
+				in.open = true
+				return true, ""
+			}
 			return false, path + ": reference list fails: " + e.Msg
 		}
 		gs, err := g.ToSlice(funcGen.NewEmptyStack[value.Value]())
@@ -414,8 +427,12 @@ func CompareOutcome(wv ref.Value, we *ref.Err, readAheadErr bool, got Outcome) (
 		}
 		return Disagree, fmt.Sprintf("reference: value %s; real: error %v", ref.Describe(wv), got.Err)
 	}
-	if ok, d := EqualTol(wv, got.Val, got.FloatTol); !ok {
+	ok, open, d := equalTol3(wv, got.Val, got.FloatTol)
+	if !ok {
 		return Disagree, d
+	}
+	if open {
+		return Unspecified, "the reference value could not be evaluated again for the comparison (budget)"
 	}
 	return Agree, ""
 }
